@@ -97,6 +97,7 @@ def monitors(s, ctx, desc):
     attaching = set()
     ok_res = {}        # delegate name -> result (success only), from the start of its completing call
     completed = set()
+    resolver = {}
     for i, e in enumerate(s.log):
         t, k = e[0], e[1]
         if k == "daddcb>" and e[2] in dkey:
@@ -123,8 +124,12 @@ def monitors(s, ctx, desc):
             fin = ctx.final.get(e[2])
             if fin is not None and fin[0] in ("ok", "err"):
                 gone_sure.add(key_of_f[e[2]])
+        elif k == "fstate" and e[3] == "cancel" and e[2] in key_of_f:
+            resolver[e[2]] = t          # the cancel() that performs the state change is the RESOLVING call
         elif k == "fcancel<" and e[2] in key_of_f:
-            if e[3] is True:
+            # a cancel() that returns True on a future somebody else has just cancelled (and who is still on his way to the
+            # deregistration inside HIS cancel call) is not the resolving call the property speaks of
+            if e[3] is True and resolver.get(e[2], t) == t:
                 gone_sure.add(key_of_f[e[2]])
         elif k in ("tstart", "clear") and t == worker:
             expect_snap = 1
